@@ -827,6 +827,17 @@ func (fr *frame) doAppend(call *ssa.CallCommon, args []Val, st *State, pos token
 		n, freshArr, oldArr, s.T, n, total, freshArr, srcArr, t.T, n, freshArr))
 	c.wrObj(st, es, newObj, freshArr)
 	c.wrObj(st, es, c.acc("sobj", s.T), c.define("app_arr", "(Array Int "+es+")", ite(inplace, inArr, oldArr)))
+	// ghost fact naming the operation (usable by axioms about concatenation)
+	c.declOnce("appendOf", "(declare-fun appendOf (Slice Slice Slice) Bool)")
+	fr.assumeR(fmt.Sprintf("(appendOf %s %s %s)", res, s.T, t.T))
+	// Consequences of the two cases, stated once on the result slice (absolute positions):
+	// its first n elements are s's old elements, the next k are t's old elements.
+	rarr := c.define("app_res_arr", "(Array Int "+es+")", ite(inplace, inArr, freshArr))
+	roff := fmt.Sprintf("(soff %s)", res)
+	fr.assumeR(fmt.Sprintf("(= (select %s (sobj %s)) %s)", c.heap(st, es), res, rarr))
+	fr.assumeR(fmt.Sprintf("(forall ((j Int)) (! (and (=> (and (<= %s j) (< j (+ %s %s))) (= (select %s j) (select %s (+ (soff %s) (- j %s))))) (=> (and (<= (+ %s %s) j) (< j (+ %s %s))) (= (select %s j) (select %s (+ (soff %s) (- j (+ %s %s))))))) :pattern ((select %s j))))",
+		roff, roff, n, rarr, oldArr, s.T, roff,
+		roff, n, roff, total, rarr, srcArr, t.T, roff, n, rarr))
 	fr.ghostAllocCond(st, not(inplace), newCap, et)
 	return Val{T: res, Ty: stype}
 }
